@@ -464,7 +464,10 @@ def predict_poisson(test, rates2d, n_obs, nsim, calls, injected, ctx):
                 ctx.count('rare:draw_within_slop_of_boundary')
             else:
                 base[cands[0]] += 1
-        if len(amb) > 4:
+        n_combo = 1
+        for a_ in amb:
+            n_combo *= len(a_)
+        if len(amb) > 4 or n_combo > 64:
             out.append(None)
             ctx.count('ambiguous_simulation_skipped')
             continue
@@ -500,7 +503,10 @@ def predict_binary(test, rates2d, n_active, nsim, calls, injected, ctx, max_path
                     ctx.count('rare:draw_within_slop_of_boundary')
                 else:
                     base.add(cands[0])
-            if len(amb) > 4:
+            n_combo = 1
+            for a_ in amb:
+                n_combo *= len(a_)
+            if len(amb) > 4 or n_combo > 64:
                 per_sim.append(None)
                 continue
             vals = []
@@ -520,9 +526,11 @@ def predict_binary(test, rates2d, n_active, nsim, calls, injected, ctx, max_path
     if n_amb:
         ctx.count('rare:draw_within_slop_of_boundary', n_amb)
     results = []
+    pruned = [False]
 
     def walk(pos, sim, active, n_act, dist):
         if len(results) > max_paths:
+            pruned[0] = True
             return
         while True:
             if sim == nsim:
@@ -554,6 +562,11 @@ def predict_binary(test, rates2d, n_active, nsim, calls, injected, ctx, max_path
                 active[b] = True
                 n_act += 1
     walk(0, 0, [False] * len(flat), 0, [])
+    if pruned[0]:
+        # too many admissible placements (draws at boundaries of bins narrower than the float slop): the enumeration was
+        # cut short, so no verdict on the values of this distribution
+        ctx.count('ambiguous_simulation_skipped')
+        return None
     if not results:
         raise StreamMismatch('%s:uniform-stream-does-not-segment-into-simulations' % test,
                              {'draws': len(draws), 'n_active': n_active, 'nsim': nsim})
